@@ -89,8 +89,9 @@ fn range_ref(pk: &PkAtoms, t: &Trace, radix: u64, c: &Scalar) -> Result<RangeRef
     }
     for j in 0..l {
         let p = format!("digit_proofs/[{}]", j);
-        let s1 = g1(&t.fget(&format!("{}/blinded_signature/sigma1", p))?).ok_or("range_ref: sigma1")?;
-        let s2 = g1(&t.fget(&format!("{}/blinded_signature/sigma2", p))?).ok_or("range_ref: sigma2")?;
+        // curve points outside the group are not signature elements: such a digit proof is not well formed
+        let s1o = g1(&t.fget(&format!("{}/blinded_signature/sigma1", p))?);
+        let s2o = g1(&t.fget(&format!("{}/blinded_signature/sigma2", p))?);
         let com = g2(&t.fget(&format!("{}/commitment_proof/commitment", p))?).ok_or("range_ref: commitment")?;
         let tt = g2(&t.fget(&format!("{}/commitment_proof/scalar_commitment", p))?).ok_or("range_ref: scalar commitment")?;
         let bf = sc(&t.fget(&format!("{}/commitment_proof/blinding_factor_response_scalar", p))?).ok_or("range_ref: bf response")?;
@@ -105,7 +106,10 @@ fn range_ref(pk: &PkAtoms, t: &Trace, radix: u64, c: &Scalar) -> Result<RangeRef
         if rs.len() != 1 {
             return Err(format!("range_ref: digit proof {} has {} response scalars", j, rs.len()));
         }
-        let (wf, sch, link) = sigproof_ref(pk, &s1, &s2, &com, &tt, c, &bf, &rs);
+        let (wf, sch, link) = match (s1o, s2o) {
+            (Some(s1), Some(s2)) => sigproof_ref(pk, &s1, &s2, &com, &tt, c, &bf, &rs),
+            _ => (false, false, false),
+        };
         if !(wf && sch && link) && out.digits_ok {
             out.digits_ok = false;
             out.first_bad = Some(format!("digit {}: well-formed={} schnorr={} pairing-link={}", j, wf, sch, link));
